@@ -394,5 +394,62 @@ func c05Run(c *core.Ctx, r *core.Result, sc c05Scenario) {
 			r.Outcome(fmt.Sprintf("salt-dt%+d-executed=%v", dt, executed))
 		}
 	}
+	// the same signed entry twice: first in a block 13 h before its salt (outside the window: inert there), then again 80 blocks
+	// (13 h 20 min) later, inside the window: the later copy is the one that executes, exactly as if the early copy were not there
+	if sc.valid {
+		key := sc.name + "/early-copy-outside-the-window-then-a-copy-inside"
+		if c.Want(key) {
+			r.Eval()
+			r.NonTrivial(key)
+			var dumps [2]canon.Dump
+			ok := true
+			for variant := 0; variant < 2 && ok; variant++ {
+				rn := w.Fork()
+				b := rn.B
+				e, _ := mkE(b, b.Chain.EntryUnix(b.Next(), 1)+13*3600)
+				first := drive.BlockSpec{Rates: R1(), OPRPayTo: kit.AddrStr(KM)}
+				if variant == 0 {
+					first.TX = []fake.Entry{e}
+				}
+				b.Add(first)
+				b.AddEmpty(78)
+				b.Add(drive.BlockSpec{Rates: R1(), OPRPayTo: kit.AddrStr(KM)})
+				b.Add(drive.BlockSpec{Rates: R1(), OPRPayTo: kit.AddrStr(KM), TX: []fake.Entry{e}})
+				b.Add(drive.BlockSpec{Rates: R2(), OPRPayTo: kit.AddrStr(KM)})
+				b.Add(drive.BlockSpec{Rates: R1(), OPRPayTo: kit.AddrStr(KM)})
+				out := rn.Sync()
+				dumps[variant] = rn.Dump(c05Proj)
+				rn.Close()
+				if !out.Reached {
+					r.Count("inconclusive-early-copy-"+outcomeClass(out), 1)
+					ok = false
+				}
+			}
+			if ok {
+				if canon.Equal(dumps[1], noELate(w, mkE)) {
+					panic("harness: C05 " + key + ": the copy inside the window does not execute on its own: the scenario is vacuous")
+				}
+				if !canon.Equal(dumps[0], dumps[1]) {
+					r.Violate(core.Violation{Key: key, Signature: "C05:early-inert-copy-changes-what-the-valid-copy-does", Desc: "an entry written once outside its validity window (inert) and once inside it does not have the effect of the valid copy alone", Detail: joinDiff(dumps[1], dumps[0])})
+				}
+				r.Outcome("early-copy:checked")
+			}
+		}
+	}
 	_ = factom.Bytes32{}
+}
+
+// noELate is the ledger of the same 84-block chain without any copy of the entry.
+func noELate(w *World, mkE func(b *drive.Builder, salt int64) (fake.Entry, []byte)) canon.Dump {
+	rn := w.Fork()
+	defer rn.Close()
+	b := rn.B
+	b.Add(drive.BlockSpec{Rates: R1(), OPRPayTo: kit.AddrStr(KM)})
+	b.AddEmpty(78)
+	b.Add(drive.BlockSpec{Rates: R1(), OPRPayTo: kit.AddrStr(KM)})
+	b.Add(drive.BlockSpec{Rates: R1(), OPRPayTo: kit.AddrStr(KM)})
+	b.Add(drive.BlockSpec{Rates: R2(), OPRPayTo: kit.AddrStr(KM)})
+	b.Add(drive.BlockSpec{Rates: R1(), OPRPayTo: kit.AddrStr(KM)})
+	rn.Sync()
+	return rn.Dump(c05Proj)
 }
